@@ -55,6 +55,12 @@ CHECKS = {
  "C11": ("mc-disp", "program enumeration + explicit-state exploration of the stage model extracted from the real DispatcherBuilder, traces replayed on the real Dispatcher",
          "(a) for every storage-handle shape (ReadStorage/WriteStorage over all 18 storage kinds, Entities, Read<LazyUpdate>, tuples) the resources actually borrowed by fetch() are measured and must equal reads()/writes() exactly; (b) every system graph with <=3 (quick) / <=4 (thorough) systems x access shapes x every subset of dependency edges x every barrier placement goes through the real DispatcherBuilder, whose stage structure is the model: every interleaving of enter/exit events it allows is explored and no two simultaneously active systems may conflict on the measured borrows, dependencies hold, every system exactly once; (c) the model traces (all traces for small graphs, maximal-overlap traces otherwise) are replayed with gates on the real Dispatcher over a rayon pool: every system must become runnable exactly when the model says, and no panic may escape dispatch.",
          "DESIGN.md §4 C11"),
+ "C14": ("mc-sl", "exhaustive enumeration of small worlds through a real serialise/deserialise round trip",
+         "Every world with 3 (quick) / 4 (thorough) entities: every marked subset x every subset carrying a plain component x every reference graph of a derive-generated reference component ((n+1)^n graphs: self loops, cycles, forward references), with a hash-map-backed plain component and a hand-written reference component varied along; through SimpleMarker and UuidMarker, serialize and serialize_recursive, JSON with every permutation of the records and RON, into a new and into an emptied world; the loaded world must hold exactly one entity per marked (resp. reachable) source entity with equal components, references pointing at the image of their target, and nothing else.",
+         "DESIGN.md §4 C14"),
+ "C15": ("mc-sl", "explicit-state BFS over mark / delete / maintain / allocator-maintain / save / load histories on the real World",
+         "All states within depth 7/8 and 4/5 entity creations (creations made by loads included) over create (immediate, deferred), mark, set component, delete (immediate, deferred), maintain, allocator.maintain, serialise, deserialise of the world's own output and of two canned data sets from another world (one with ids above the counter); after every transition: live entities carry pairwise distinct marker ids, marking a marked entity returns its marker, a load updates known ids in place (same handle, components replaced, absent ones removed), creates entities only for unknown ids, touches nothing else, and the serialised bytes equal the model's.",
+         "DESIGN.md §4 C15"),
 }
 
 NOTE = "Bounded exhaustive exploration of the real implementation (no separate model to drift); trusted: hibitset, shred, shrev, crossbeam-queue, rayon, serde as dependencies; bounds are stated in the evidence file."
@@ -91,6 +97,7 @@ def main():
             {"name": "mc-join", "path": "/verif/mc/src/join.rs", "serves_properties": ["C06","C07","C13","C16"], "kind_free_text": "stateless exhaustive enumeration of join shapes and of every split tree of the real parallel producer"},
             {"name": "mc-conc", "path": "/verif/mc/src/conc.rs", "serves_properties": ["C10","C17"], "kind_free_text": "CHESS-style preemption-bounded schedule enumeration; shuttle coroutines, custom scheduler, yield points compiled into specs under cfg(specs_verif)"},
             {"name": "mc-disp", "path": "/verif/mc/src/disp.rs", "serves_properties": ["C11"], "kind_free_text": "graph enumeration; model = stage structure printed by the real builder; gated replay on the real dispatcher"},
+            {"name": "mc-sl", "path": "/verif/mc/src/sl.rs", "serves_properties": ["C14","C15"], "kind_free_text": "world enumeration through real round trips; BFS over save/load histories"},
             {"name": "mc-store", "path": "/verif/mc/src/store.rs", "serves_properties": ["C04","C08","C12","C19"], "kind_free_text": "explicit-state BFS over storage histories; ledger tokens; destructor-panic injection"},
         ],
         "checks": checks,
